@@ -529,6 +529,177 @@ def policy_family(kind, inst, gen):
                   encode_policy, oracle_policy, nontrivial_policy, describe=describe_policy)
 
 
+# --------------------------------------------------------------------------- RateLimitedEntity in a real Simulation
+def _ent_terms(c):
+    """(policy config term, initial policy state term) for the entity correspondence."""
+    O = "Qops" if c["inst"] == "q" else "Fops"
+    num = numq if c["inst"] == "q" else numf
+    k, p = c["kind"], c["params"]
+    if k == "tb":
+        init = p["cap"] if p.get("init") is None else p["init"]
+        return (Raw(f"(@CTb {O} (Build_tbp {O} {num(p['cap'])} {num(p['rate'])}))"),
+                Raw(f"(@STb {O} (Build_tbs {O} {num(init)} None))"))
+    if k == "lk":
+        return Raw(f"(@CLk {O} (lk_interval {O} {num(p['rate'])}))"), Raw(f"(@SLk {O} None)")
+    if k == "sw":
+        return Raw(f"(@CSw {O} (nanos {O} {num(p['w'])}) {p['n']})"), Raw(f"(@SSw {O} [])")
+    if k == "fw":
+        return Raw(f"(@CFw {O} (nanos {O} {num(p['w'])}) {p['n']})"), Raw(f"(@SFw {O} (Build_fws None 0))")
+    raise ValueError(k)
+
+
+def _pol_obs_term(c, st):
+    O = "Qops" if c["inst"] == "q" else "Fops"
+    num = numq if c["inst"] == "q" else numf
+    k = c["kind"]
+    if k == "tb":
+        return Raw(f"(@OTb {O} {num(st[0])} {term(opt(st[1]))})")
+    if k == "lk":
+        return Raw(f"(@OLk {O} {term(opt(st))})")
+    if k == "sw":
+        return Raw(f"(@OSw {O} {term(list(st))})")
+    return Raw(f"(@OFw {O} {term(opt(st[0]))} {st[1]})")
+
+
+def impl_entity(c):
+    from happysimulator.components.rate_limiter.rate_limited_entity import RateLimitedEntity
+    from happysimulator.core.entity import Entity
+    from happysimulator.core.event import Event
+    from happysimulator.core.simulation import Simulation
+    from happysimulator.core.temporal import Instant
+    from hsverif.util import run_bounded
+    kind = KINDS[c["kind"]]
+    pol = kind.make(c["params"])
+    trace, got = [], []
+
+    class Sink(Entity):
+        def handle_event(self, event):
+            got.append([event.time.nanoseconds, event.context.get("id")])
+            return []
+
+    class Rec(RateLimitedEntity):
+        def handle_event(self, event):
+            outs = super().handle_event(event)
+            t = event.time.nanoseconds
+            is_poll = event.event_type == f"rate_limit_poll::{self.name}"
+            o = []
+            for ev in outs:
+                if ev.event_type.startswith("forward::"):
+                    o.append(["F", ev.context["id"], ev.time.nanoseconds])
+                else:
+                    o.append(["P", ev.time.nanoseconds])
+            st = self.stats
+            trace.append(dict(inp=["P", t] if is_poll else ["R", event.context["id"], t], outs=o,
+                              queue=[e.context["id"] for e in self._queue._queue], poll=bool(self._poll_scheduled),
+                              stats=[st.received, st.forwarded, st.queued, st.dropped], pol=kind.snap(pol)))
+            return outs
+
+    sink = Sink("sink")
+    rl = Rec("rl", sink, pol, queue_capacity=c["cap"])
+    sim = Simulation(entities=[rl, sink], end_time=Instant(c["end"]))
+    for i, t in enumerate(c["arrivals"]):
+        sim.schedule(Event(time=Instant(t), event_type="req", target=rl, context={"id": i}))
+    _summary, verdict = run_bounded(sim, max_events_per_instant=300, max_events=20000, wall_s=20.0)
+    st = rl.stats
+    return dict(trace=trace[:400], steps=len(trace), sink=got, verdict=verdict, queue_depth=rl.queue_depth,
+                stats=[st.received, st.forwarded, st.queued, st.dropped])
+
+
+def encode_entity(c, obs):
+    cfg, st0 = _ent_terms(c)
+    tr = []
+    for s in obs["trace"]:
+        i = Ctor("EPoll", s["inp"][1]) if s["inp"][0] == "P" else Ctor("EReq", s["inp"][1], s["inp"][2])
+        outs = [Ctor("OFwd", o[1], o[2]) if o[0] == "F" else Ctor("OPoll", o[1]) for o in s["outs"]]
+        tr.append((i, (outs, list(s["queue"]), s["poll"], tuple(s["stats"]), _pol_obs_term(c, s["pol"]))))
+    return term((cfg, st0, c["cap"], tr))
+
+
+def oracle_entity(c, obs):
+    out = []
+    n_arr = len(c["arrivals"])
+    rc, fw, qd, dr = obs["stats"]
+    ids = [i for _t, i in obs["sink"]]
+    if obs["verdict"] != "ok":
+        out.append(dict(clause="a drain never stalls: the entity re-delivers its poll at a frozen clock", verdict=obs["verdict"]))
+        return out
+    if rc != n_arr or rc != fw + obs["queue_depth"] + dr:
+        out.append(dict(clause="every request is forwarded, queued or dropped exactly once (counters)",
+                        received=rc, forwarded=fw, queue_depth=obs["queue_depth"], dropped=dr, arrivals=n_arr))
+    if len(set(ids)) != len(ids) or any(i is None or not (0 <= i < n_arr) for i in ids) or len(ids) != fw:
+        out.append(dict(clause="every request is forwarded at most once, and only requests that arrived", sink=ids[:40]))
+    still = obs["trace"][-1]["queue"] if obs["trace"] and obs["steps"] <= 400 else None
+    if still is not None and (set(still) & set(ids) or len(set(still)) != len(still)):
+        out.append(dict(clause="a request is never both forwarded and still queued", queue=still))
+    if obs["queue_depth"] != 0 and c.get("can_drain", True):
+        out.append(dict(clause="a drain never stalls: requests still queued long after the last arrival",
+                        queue_depth=obs["queue_depth"]))
+    for a, b in zip(ids, ids[1:]):
+        if a is not None and b is not None and a > b:
+            # request a (arrived later) was forwarded before request b
+            direct = any(s["inp"][0] == "R" and s["inp"][1] == a and any(o[0] == "F" and o[1] == a for o in s["outs"])
+                         and len(s["queue"]) > 0 for s in obs["trace"])
+            out.append(dict(clause="requests are forwarded in arrival order", overtaker=a, overtaken=b,
+                            mechanism="bypass-nonempty-queue" if direct else "other",
+                            what="RateLimitedEntity forwards an arriving request immediately while earlier requests are still queued "
+                                 "(arrival at the instant of the pending poll, delivered before it)"))
+            break
+    return out
+
+
+def attribute_entity(c, obs, f):
+    if f.get("mechanism") == "bypass-nonempty-queue":
+        return "C10-entity-arrival-overtakes-queue"
+    return None
+
+
+def gen_entity(inst):
+    def g(rng):
+        kind = rng.choice(["tb", "tb", "lk", "sw", "fw"])
+        if inst == "q":
+            unit = rng.choice([128, 256, 512]) * GRID
+            if kind == "tb":
+                p = dict(cap=rng.choice([1.0, 1.0, 2.0, 3.0]), rate=rng.choice([1.0, 2.0, 4.0, 0.5]),
+                         init=rng.choice([None, None, 0.0, 1.0]))
+            elif kind == "lk":
+                p = dict(rate=rng.choice([1.0, 2.0, 4.0, 0.5]))
+            else:
+                p = dict(w=rng.choice([256, 512, 1024]) / 512.0, n=rng.randint(1, 3))
+        else:
+            unit = rng.choice([100_000_000, 50_000_000, 333_333_333, 250_000_000])
+            if kind == "tb":
+                p = dict(cap=rng.choice([1.0, 2.0, 3.0, 1.5]), rate=rng.choice([1.0, 3.0, 10.0, 7.0, 2.5]),
+                         init=rng.choice([None, None, 0.0, 0.7]))
+            elif kind == "lk":
+                p = dict(rate=rng.choice([1.0, 3.0, 10.0, 7.0, 2.5]))
+            else:
+                p = dict(w=rng.choice([0.1, 0.3, 0.5, 1.0, 0.7]), n=rng.randint(1, 3))
+        n = rng.randint(1, 14)
+        t, arr = rng.choice([0, 0, unit, 3 * unit]), []
+        for _ in range(n):
+            t += rng.choice([0, 0, 0, 1, 1, 2, 3, 5]) * unit
+            if inst == "f" and rng.random() < 0.2:
+                t = max(0, t + rng.choice([-1, 1, 2]))
+            arr.append(t)
+        arr.sort()
+        return dict(kind=kind, inst=inst, params=p, cap=rng.choice([0, 1, 2, 3, 5, 1000]), arrivals=arr,
+                    end=arr[-1] + 400 * NS)
+    return g
+
+
+def ent_case_type(inst):
+    O = "Qops" if inst == "q" else "Fops"
+    return f"pol_cfg {O} * pol_st {O} * Z * list (ein * eobs {O})"
+
+
+def entity_family(inst):
+    return Family(f"ent_{inst}", IMPORTS, f"ok_ent_{inst}", ent_case_type(inst), gen_entity(inst), impl_entity,
+                  encode_entity, oracle_entity,
+                  lambda c, o: any(s["inp"][0] == "P" for s in o["trace"]),
+                  attribute_entity, parallel=True,
+                  describe=lambda c: f"ent_{c['kind']}_{c['inst']},cap={min(c['cap'], 9)}")
+
+
 FAMILIES = [
     policy_family("tb", "q", gen_tb("q")),
     policy_family("tb", "f", gen_tb("f")),
@@ -540,10 +711,12 @@ FAMILIES = [
     policy_family("fw", "f", gen_win("fw", "f")),
     policy_family("ad", "q", gen_ad("q")),
     policy_family("ad", "f", gen_ad("f")),
+    entity_family("q"),
+    entity_family("f"),
 ]
 
 PROOF_FILES = ["C10/Model.v", "C10/QFacts.v", "C10/TokenBucket.v", "C10/Leaky.v", "C10/Sliding.v", "C10/Fixed.v",
-               "C10/Adaptive.v", "C10/Props.v"]
+               "C10/Adaptive.v", "C10/Entity.v", "C10/Props.v"]
 
 TRUSTED = [
     "Coq 8.16.1 kernel (coqc, vm_compute for witnesses and case evaluation); no native_compute",
